@@ -378,6 +378,10 @@ def _instantiate_generator(ginfo, for_stmt, caller_names):
             return stmts
         if isinstance(last, ast.If):
             return tail_block(last.body) or tail_block(last.orelse)
+        if isinstance(last, ast.For) and not last.orelse and not _contains(for_stmt.body, (ast.Break,)):
+            # nested loops: every yield is still followed directly by the next iteration (a `break` of the consumer would
+            # have to leave all of them, so consumers with break are not inlined)
+            return tail_block(last.body)
         return None
 
     if tail_block(loop.body) is None or not any(x is yields[0] for x in ast.walk(loop)):
@@ -430,6 +434,8 @@ def _instantiate_generator(ginfo, for_stmt, caller_names):
             return stmts
         if isinstance(last, ast.If):
             return tail_block2(last.body) or tail_block2(last.orelse)
+        if isinstance(last, ast.For) and not last.orelse:
+            return tail_block2(last.body)
         return None
 
     tb = tail_block2(nloop.body)
@@ -469,7 +475,13 @@ def _inline_in_function(prog, fi, is_new, stats):
         if g is fi or not is_new(g) or g.module.kind not in ("py", "pyx"):
             return None
         if g.qual.startswith(fi.qual + "."):
-            return None  # local def
+            # a local def (closure): its free variables are the caller's locals at call time, which is what inlining at the
+            # call site reads as well; only plain closures that are called directly
+            if _contains(g.node.body, (ast.Nonlocal, ast.Global)) or g.qual.count(".") != fi.qual.count(".") + 1:
+                return None
+            refs = [x for x in ast.walk(fi.node) if isinstance(x, ast.Name) and x.id == g.node.name and isinstance(x.ctx, ast.Load)]
+            if any(not (isinstance(getattr(x, "parent", None), ast.Call) and x.parent.func is x) for x in refs):
+                return None
         if not _inlinable(g):
             return None
         return g
@@ -596,7 +608,9 @@ def _inline_in_function(prog, fi, is_new, stats):
                 except Exception:
                     tg, how = [], "unknown"
                 g = tg[0] if len(tg) == 1 and how not in ("class", "by-name-ambiguous", "unknown") else None
-                if g is not None and g is not fi and is_new(g) and g.module.kind in ("py", "pyx") and not g.qual.startswith(fi.qual + "."):
+                if g is not None and g.qual.startswith(fi.qual + ".") and (_contains(g.node.body, (ast.Nonlocal, ast.Global)) or g.qual.count(".") != fi.qual.count(".") + 1):
+                    g = None  # a closure that rebinds the caller's names is left alone
+                if g is not None and g is not fi and is_new(g) and g.module.kind in ("py", "pyx"):
                     repl = _instantiate_generator(g, s, caller_names)
                     if repl is not None:
                         stmts[i : i + 1] = repl
@@ -910,11 +924,40 @@ def _split_tuple_assignments(fnode, new_locals):
     return changed
 
 
+def _reused_names(fi, ref_locals, params):
+    """Reference names all of whose bindings in the current function are *new* plain assignments: the refactoring re-used the
+    name for a temporary (the reference's own binding, e.g. a loop target, went away or was split off)."""
+    from . import alpha
+
+    fps = getattr(fi, "_ref_fps", None)
+    if fps is None:
+        return set()
+    locs = alpha.local_names(fi.node)
+    by = {}
+    for n in ast.walk(fi.node):
+        if isinstance(n, ast.Name) and isinstance(n.ctx, (ast.Store, ast.Del)) and n.id in ref_locals and n.id not in params:
+            by.setdefault(n.id, []).append(n)
+    out = set()
+    for name, sts in by.items():
+        ok = True
+        for st in sts:
+            d = getattr(st, "parent", None)
+            if isinstance(d, ast.Tuple):
+                d = getattr(d, "parent", None)
+            if not (isinstance(d, ast.Assign) and len(d.targets) == 1) or alpha._fingerprint(d, locs)[0] in fps:
+                ok = False
+                break
+        if ok:
+            out.add(name)
+    return out
+
+
 def _propagate_temps(fi, ref_locals, stats):
     fnode = fi.node
     params = {a.arg for a in fnode.args.posonlyargs + fnode.args.args + fnode.args.kwonlyargs}
     bound = _names_bound(fnode)
     new_locals = {x for x in bound if x not in ref_locals and x not in params}
+    new_locals |= _reused_names(fi, ref_locals, params)
     if not new_locals:
         return 0
     set_parents(fnode)
@@ -1093,6 +1136,86 @@ def _const_seq(e, module_consts):
     return None
 
 
+def _is_literal(e):
+    if isinstance(e, ast.Constant):
+        return True
+    if isinstance(e, (ast.Tuple, ast.List, ast.Set)):
+        return all(_is_literal(x) for x in e.elts)
+    if isinstance(e, ast.Dict):
+        return all(k is not None and _is_literal(k) for k in e.keys) and all(_is_literal(v) for v in e.values)
+    if isinstance(e, ast.Call) and isinstance(e.func, ast.Name) and e.func.id in ("frozenset", "tuple") and len(e.args) == 1 and not e.keywords:
+        return _is_literal(e.args[0])
+    if isinstance(e, ast.UnaryOp) and isinstance(e.op, ast.USub):
+        return isinstance(e.operand, ast.Constant)
+    return False
+
+
+class _ClassConst(ast.NodeTransformer):
+    """self.X / cls.X / ClassName.X -> the literal X is bound to at class level; {..}.items()/keys()/values() -> tuples."""
+
+    def __init__(self, consts, cname, in_class):
+        self.consts, self.cname, self.in_class = consts, cname, in_class
+        self.n = 0
+        self.used = set()
+
+    def visit_Attribute(self, node):
+        self.generic_visit(node)
+        if isinstance(node.ctx, ast.Load) and node.attr in self.consts and isinstance(node.value, ast.Name) and ((self.in_class and node.value.id in ("self", "cls")) or node.value.id == self.cname):
+            self.n += 1
+            self.used.add(node.attr)
+            new = _clone(self.consts[node.attr])
+            new._folded = True
+            return ast.copy_location(new, node)
+        return node
+
+    def visit_Call(self, node):
+        self.generic_visit(node)
+        f = node.func
+        if isinstance(f, ast.Attribute) and isinstance(f.value, ast.Dict) and getattr(f.value, "_folded", False) and not node.args and not node.keywords and f.attr in ("items", "keys", "values"):
+            d = f.value
+            if f.attr == "items":
+                elts = [ast.Tuple(elts=[k, v], ctx=ast.Load()) for k, v in zip(d.keys, d.values)]
+            elif f.attr == "keys":
+                elts = list(d.keys)
+            else:
+                elts = list(d.values)
+            new = ast.Tuple(elts=elts, ctx=ast.Load())
+            ast.copy_location(new, node)
+            ast.fix_missing_locations(new)
+            return new
+        return node
+
+
+class _NamedTupleCtor(ast.NodeTransformer):
+    def __init__(self, nts):
+        self.nts = nts
+        self.n = 0
+
+    def visit_Call(self, node):
+        self.generic_visit(node)
+        if isinstance(node.func, ast.Name) and node.func.id in self.nts and not any(isinstance(a, ast.Starred) for a in node.args) and all(k.arg for k in node.keywords):
+            fields = self.nts[node.func.id]
+            vals = dict(zip([f for f, _ in fields], node.args))
+            for k in node.keywords:
+                vals[k.arg] = k.value
+            elts = []
+            for f, d in fields:
+                if f in vals:
+                    elts.append(vals[f])
+                elif d is not None:
+                    elts.append(_clone(d))
+                else:
+                    return node
+            if len(node.args) > len(fields):
+                return node
+            self.n += 1
+            new = ast.Tuple(elts=elts, ctx=ast.Load())
+            ast.copy_location(new, node)
+            ast.fix_missing_locations(new)
+            return new
+        return node
+
+
 def _module_consts(m):
     out = {}
     for s in m.tree.body:
@@ -1133,6 +1256,35 @@ class _AttrConst(ast.NodeTransformer):
         return node
 
 
+def _split_new_ifexp_assigns(fi, ref_fingerprints, stats):
+    """A new `x = A if C else B` statement (plain name or attribute/subscript target) is `if C: x = A else: x = B`."""
+    from . import alpha
+
+    locs = alpha.local_names(fi.node)
+    done = 0
+    for n in list(walk_function(fi.node)):
+        if not (isinstance(n, ast.Assign) and len(n.targets) == 1 and isinstance(n.value, ast.IfExp)):
+            continue
+        blk, _p = _block_of(n)
+        if blk is None:
+            continue
+        if _in_reference(fi, n, locs, ref_fingerprints):
+            continue
+        t1, t2 = _clone(n.targets[0]), _clone(n.targets[0])
+        a1 = ast.Assign(targets=[t1], value=n.value.body, type_comment=None)
+        a2 = ast.Assign(targets=[t2], value=n.value.orelse, type_comment=None)
+        new = ast.If(test=n.value.test, body=[a1], orelse=[a2])
+        for x in (a1, a2, new):
+            ast.copy_location(x, n)
+        ast.fix_missing_locations(new)
+        blk[[i_ for i_, x_ in enumerate(blk) if x_ is n][0]] = new
+        new.parent = _p
+        done += 1
+    if done:
+        stats.setdefault("#ifexp", []).append("%s:%d" % (fi.qual, done))
+    return done
+
+
 def _unfold_filtered_loops(fi, ref_fingerprints, stats):
     """A new `for T in (V for V in ITER if COND): BODY` (generator or list, element = the variable itself) is
     `for T in ITER: if COND[T/V]: BODY`.  (For a list the filter is evaluated for all elements before the first BODY runs;
@@ -1150,7 +1302,7 @@ def _unfold_filtered_loops(fi, ref_fingerprints, stats):
         g = c.generators[0]
         if not (isinstance(g.target, ast.Name) and isinstance(c.elt, ast.Name) and c.elt.id == g.target.id and isinstance(n.target, ast.Name)):
             continue
-        if alpha._fingerprint(n, locs)[0] in ref_fingerprints:
+        if _in_reference(fi, n, locs, ref_fingerprints):
             continue
         cond = g.ifs[0] if len(g.ifs) == 1 else ast.BoolOp(op=ast.And(), values=list(g.ifs))
         cond = _clone(cond)
@@ -1168,6 +1320,515 @@ def _unfold_filtered_loops(fi, ref_fingerprints, stats):
     return done
 
 
+def _unfold_mapped_loops(fi, ref_fingerprints, stats):
+    """A new `for T in (ELT for V in ITER [if COND]): BODY` over a *generator* (lazy: ELT is evaluated right before BODY)
+    whose element is not the loop variable itself is `for V in ITER: [if COND:] T = ELT; BODY`."""
+    from . import alpha
+
+    locs = alpha.local_names(fi.node)
+    done = 0
+    for n in list(walk_function(fi.node)):
+        if not (isinstance(n, ast.For) and not n.orelse and isinstance(n.iter, ast.GeneratorExp)):
+            continue
+        c = n.iter
+        if len(c.generators) != 1 or c.generators[0].is_async:
+            continue
+        g = c.generators[0]
+        if not (isinstance(g.target, (ast.Name, ast.Tuple)) and not (isinstance(c.elt, ast.Name) and isinstance(g.target, ast.Name) and c.elt.id == g.target.id)):
+            continue
+        if any(isinstance(x, (ast.Continue,)) for x in ast.walk(n)) and g.ifs:
+            pass  # a continue in BODY still continues the (same) loop
+        if _in_reference(fi, n, locs, ref_fingerprints):
+            continue
+        vnames = {x.id for x in ast.walk(g.target) if isinstance(x, ast.Name)}
+        tnames = {x.id for x in ast.walk(n.target) if isinstance(x, ast.Name)}
+        # the comprehension variable becomes a local of the function: it must not collide with one that is live
+        others = {x.id for x in ast.walk(fi.node) if isinstance(x, ast.Name)} - {x.id for x in ast.walk(c) if isinstance(x, ast.Name)}
+        if vnames & (others | tnames):
+            continue
+        assign = ast.Assign(targets=[n.target], value=c.elt, type_comment=None)
+        ast.copy_location(assign, n)
+        body = [assign] + list(n.body)
+        if g.ifs:
+            cond = g.ifs[0] if len(g.ifs) == 1 else ast.BoolOp(op=ast.And(), values=list(g.ifs))
+            guard = ast.If(test=cond, body=body, orelse=[])
+            ast.copy_location(guard, n)
+            body = [guard]
+        tgt = _clone(g.target)
+        for x in ast.walk(tgt):
+            if isinstance(x, (ast.Name, ast.Tuple)):
+                x.ctx = ast.Store()
+        n.target = tgt
+        n.iter = g.iter
+        n.body = body
+        ast.fix_missing_locations(n)
+        stats.setdefault("#mapped_loops", []).append(fi.qual)
+        done += 1
+    return done
+
+
+def _in_reference(fi, stmt, locs, ref_fingerprints):
+    """Is this statement one of the reference tree's?  Simple statements: header fingerprint; compound statements: digest of
+    the whole statement (a new loop with the same header as an old one is still new)."""
+    from . import alpha
+
+    if isinstance(stmt, (ast.For, ast.While, ast.If, ast.With, ast.Try)):
+        deep = getattr(fi, "_ref_deep", None)
+        if deep is not None:
+            return alpha.deep_fingerprint(stmt, locs) in deep
+    return alpha._fingerprint(stmt, locs)[0] in ref_fingerprints
+
+
+def _unzip_new_pairs(fi, ref_locals, stats):
+    """A new local `S = list(zip(A, B, ...))` (or tuple(zip(..))) over plain names that are not rebound afterwards, used only
+    as S[i], S[a:b] or as an iterable: S[i] -> (A[i], B[i], ...);  S[a:b] -> zip(A[a:b], B[a:b], ...);  S -> zip(A, B, ...)."""
+    done = 0
+    for n in list(walk_function(fi.node)):
+        if not (isinstance(n, ast.Assign) and len(n.targets) == 1 and isinstance(n.targets[0], ast.Name) and n.targets[0].id not in ref_locals):
+            continue
+        v = n.value
+        if not (isinstance(v, ast.Call) and isinstance(v.func, ast.Name) and v.func.id in ("list", "tuple") and len(v.args) == 1 and isinstance(v.args[0], ast.Call) and isinstance(v.args[0].func, ast.Name) and v.args[0].func.id == "zip" and len(v.args[0].args) >= 2 and all(isinstance(a, ast.Name) for a in v.args[0].args) and not v.args[0].keywords):
+            continue
+        name = n.targets[0].id
+        cols = [a.id for a in v.args[0].args]
+        stores = [x for x in ast.walk(fi.node) if isinstance(x, ast.Name) and x.id == name and isinstance(x.ctx, (ast.Store, ast.Del))]
+        if len(stores) != 1:
+            continue
+        # the columns are bound before the zip and never rebound (their contents may change: list(zip(..)) holds the same objects)
+        col_stores = [x for x in ast.walk(fi.node) if isinstance(x, ast.Name) and x.id in cols and isinstance(x.ctx, (ast.Store, ast.Del))]
+        if any(getattr(x, "lineno", 0) > n.lineno for x in col_stores):
+            continue
+        uses = [x for x in ast.walk(fi.node) if isinstance(x, ast.Name) and x.id == name and isinstance(x.ctx, ast.Load)]
+        plan = []
+        ok = True
+        for x in uses:
+            p_ = getattr(x, "parent", None)
+            if isinstance(p_, ast.Subscript) and p_.value is x and isinstance(p_.ctx, ast.Load):
+                plan.append((p_, "slice" if isinstance(p_.slice, ast.Slice) else "index"))
+            elif isinstance(p_, (ast.For, ast.comprehension)) and p_.iter is x:
+                plan.append((x, "whole"))
+            elif isinstance(p_, ast.Assign) and p_.value is x and len(p_.targets) == 1 and isinstance(p_.targets[0], ast.Name):
+                ok = False  # aliasing: leave it
+            else:
+                ok = False
+        if not ok or not plan:
+            continue
+
+        def col_sub(c, sl):
+            return ast.Subscript(value=ast.Name(id=c, ctx=ast.Load()), slice=_clone(sl), ctx=ast.Load())
+
+        class R(ast.NodeTransformer):
+            def visit_Subscript(self, node):
+                for tgt, kind in plan:
+                    if tgt is node:
+                        if kind == "index":
+                            new = ast.Tuple(elts=[col_sub(c, node.slice) for c in cols], ctx=ast.Load())
+                        else:
+                            new = ast.Call(func=ast.Name(id="zip", ctx=ast.Load()), args=[col_sub(c, node.slice) for c in cols], keywords=[])
+                        ast.copy_location(new, node)
+                        ast.fix_missing_locations(new)
+                        return new
+                self.generic_visit(node)
+                return node
+
+            def visit_Name(self, node):
+                for tgt, kind in plan:
+                    if tgt is node and kind == "whole":
+                        new = ast.Call(func=ast.Name(id="zip", ctx=ast.Load()), args=[ast.Name(id=c, ctx=ast.Load()) for c in cols], keywords=[])
+                        ast.copy_location(new, node)
+                        ast.fix_missing_locations(new)
+                        return new
+                return node
+
+        R().visit(fi.node)
+        blk, _p = _block_of(n)
+        if blk is not None:
+            blk[:] = [x for x in blk if x is not n] or [ast.copy_location(ast.Pass(), n)]
+        set_parents(fi.node)
+        stats.setdefault("#unzipped", []).append("%s:%s" % (fi.qual, name))
+        done += 1
+    return done
+
+
+def _split_loop_target_ranges(fi, ref_locals, stats):
+    """A new local that is both a for-loop target and assigned elsewhere, and whose value is never read after that loop
+    without being assigned again, gets its own name inside the loop (live-range splitting): the two variables merely share a name."""
+    from .cfg import CFG
+
+    done = 0
+    cfg = None
+    for loop in [n for n in walk_function(fi.node) if isinstance(n, ast.For)]:
+        tnames = [x for x in ast.walk(loop.target) if isinstance(x, ast.Name)]
+        for t in tnames:
+            v = t.id
+            other_stores = [x for x in ast.walk(fi.node) if isinstance(x, ast.Name) and x.id == v and isinstance(x.ctx, (ast.Store, ast.Del)) and x is not t]
+            if v in ref_locals:
+                # a reference name: only if every other binding is a new statement (the refactoring re-used the name)
+                from . import alpha as _alpha
+
+                fps = getattr(fi, "_ref_fps", None) or set()
+                locs_ = _alpha.local_names(fi.node)
+                def _new_stmt(x):
+                    d = getattr(x, "parent", None)
+                    if isinstance(d, ast.Tuple):
+                        d = getattr(d, "parent", None)
+                    return isinstance(d, ast.Assign) and _alpha._fingerprint(d, locs_)[0] not in fps
+                if not other_stores or not all(_new_stmt(x) for x in other_stores):
+                    continue
+            if not other_stores or any(any(y is x for y in ast.walk(loop)) for x in other_stores):
+                continue  # only target of this loop, or re-assigned inside it
+            if any(isinstance(x, ast.Name) and x.id == v for x in ast.walk(loop.iter)):
+                continue
+            if cfg is None:
+                try:
+                    cfg = CFG(fi.node, fi.module.relpath)
+                except Exception:
+                    return done
+            try:
+                head = cfg.node_of(loop)
+            except Exception:
+                continue
+            defs = set()
+            uses = set()
+            for nd in cfg.g.nodes:
+                a = cfg.ast(nd)
+                st = cfg.stmt(nd)
+                if a is None or nd == head:
+                    continue
+                inside = st is not None and any(y is st for y in ast.walk(loop)) and st is not loop
+                if inside:
+                    continue
+                scan = [a] if not isinstance(a, (ast.For, ast.While, ast.If, ast.With, ast.Try)) else ([a.target, a.iter] if isinstance(a, ast.For) else [getattr(a, "test", None)] if hasattr(a, "test") else [])
+                for part in scan:
+                    if part is None:
+                        continue
+                    for x in ast.walk(part):
+                        if isinstance(x, ast.Name) and x.id == v:
+                            if isinstance(x.ctx, (ast.Store, ast.Del)):
+                                defs.add(nd)
+                            else:
+                                uses.add(nd)
+            exits = [m for m in cfg.g.successors(head) if "loop" not in cfg.g[head][m]["label"].split("|")]
+            leak = False
+            for e in exits:
+                for un in uses:
+                    # a use node that also defines v (x = f(x)) reads first
+                    if e == un or cfg.find_path(e, un, avoid_nodes=defs - {un}) is not None:
+                        leak = True
+                        break
+                if leak:
+                    break
+            if leak:
+                continue
+            taken = {x.id for x in ast.walk(fi.node) if isinstance(x, ast.Name)}
+            k = 1
+            while "%s_%d" % (v, k) in taken:
+                k += 1
+            new = "%s_%d" % (v, k)
+            t.id = new
+            for st in loop.body:
+                for x in ast.walk(st):
+                    if isinstance(x, ast.Name) and x.id == v:
+                        x.id = new
+            stats.setdefault("#split_ranges", []).append("%s:%s" % (fi.qual, v))
+            done += 1
+            cfg = None
+    return done
+
+
+def _zip_to_indexed(fi, ref_fingerprints, stats):
+    """A new `for x, y in zip(X[k:], Y[k:])` (or zip(X, Y)) over plain names is the indexed walk
+    `for i, x in enumerate(X[k:], start=k): y = Y[i]` -- the normal form the reference uses for parallel lists."""
+    from . import alpha
+
+    locs = alpha.local_names(fi.node)
+    done = 0
+    for n in list(walk_function(fi.node)):
+        if not (isinstance(n, ast.For) and not n.orelse and isinstance(n.target, ast.Tuple) and all(isinstance(e, ast.Name) for e in n.target.elts) and isinstance(n.iter, ast.Call) and isinstance(n.iter.func, ast.Name) and n.iter.func.id == "zip" and len(n.iter.args) == len(n.target.elts) >= 2 and not n.iter.keywords):
+            continue
+        args = n.iter.args
+
+        def parts(a):
+            if isinstance(a, ast.Name):
+                return a.id, 0
+            if isinstance(a, ast.Subscript) and isinstance(a.value, ast.Name) and isinstance(a.slice, ast.Slice) and a.slice.upper is None and a.slice.step is None and isinstance(a.slice.lower, ast.Constant) and isinstance(a.slice.lower.value, int) and a.slice.lower.value >= 0:
+                return a.value.id, a.slice.lower.value
+            return None
+
+        ps = [parts(a) for a in args]
+        if any(p is None for p in ps) or len({p[1] for p in ps}) != 1 or ps[0][1] < 1:
+            continue  # only parallel lists walked from a common positive offset; zip(A, B) itself is a fine normal form
+        if _in_reference(fi, n, locs, ref_fingerprints):
+            continue
+        off = ps[0][1]
+        taken = {x.id for x in ast.walk(fi.node) if isinstance(x, ast.Name)}
+        idx = "index"
+        k = 0
+        while idx in taken:
+            k += 1
+            idx = "index_%d" % k
+        pre = []
+        for e, (base, _o) in list(zip(n.target.elts, ps))[1:]:
+            a_ = ast.Assign(targets=[ast.Name(id=e.id, ctx=ast.Store())], value=ast.Subscript(value=ast.Name(id=base, ctx=ast.Load()), slice=ast.Name(id=idx, ctx=ast.Load()), ctx=ast.Load()), type_comment=None)
+            ast.copy_location(a_, n)
+            pre.append(a_)
+        first = n.target.elts[0]
+        n.target = ast.Tuple(elts=[ast.Name(id=idx, ctx=ast.Store()), ast.Name(id=first.id, ctx=ast.Store())], ctx=ast.Store())
+        kw = [ast.keyword(arg="start", value=ast.Constant(value=off))] if off else []
+        n.iter = ast.Call(func=ast.Name(id="enumerate", ctx=ast.Load()), args=[args[0]], keywords=kw)
+        n.body = pre + list(n.body)
+        ast.fix_missing_locations(n)
+        stats.setdefault("#zip_indexed", []).append(fi.qual)
+        done += 1
+    return done
+
+
+def _negated(cond):
+    """AST of `not cond`, pushed into a single comparison where possible."""
+    flip = {ast.Is: ast.IsNot, ast.IsNot: ast.Is, ast.Eq: ast.NotEq, ast.NotEq: ast.Eq, ast.In: ast.NotIn, ast.NotIn: ast.In, ast.Lt: ast.GtE, ast.GtE: ast.Lt, ast.Gt: ast.LtE, ast.LtE: ast.Gt}
+    c = _clone(cond)
+    if isinstance(c, ast.Compare) and len(c.ops) == 1 and type(c.ops[0]) in flip:
+        c.ops = [flip[type(c.ops[0])]()]
+        return c
+    if isinstance(c, ast.UnaryOp) and isinstance(c.op, ast.Not):
+        return c.operand
+    return ast.UnaryOp(op=ast.Not(), operand=c)
+
+
+def _fold_search_loops(fi, ref_fingerprints, stats):
+    """New search loops become the quantifier they spell out:
+        for X in IT:                      if all(not COND for X in IT):
+            if COND: break         ->         BODY
+        else:
+            BODY
+    and, as the tail of a function,
+        for X in IT:
+            if COND: return K1     ->     return any(COND for X in IT)   (K1 = True, K2 = False; all(not COND ...) for False/True)
+        return K2
+    """
+    from . import alpha
+
+    locs = alpha.local_names(fi.node)
+    done = 0
+    for n in list(walk_function(fi.node)):
+        if not (isinstance(n, ast.For) and len(n.body) == 1 and isinstance(n.body[0], ast.If) and not n.body[0].orelse and len(n.body[0].body) == 1):
+            continue
+        inner = n.body[0].body[0]
+        blk, par = _block_of(n)
+        if blk is None or _in_reference(fi, n, locs, ref_fingerprints):
+            continue
+        idx = [k for k, x in enumerate(blk) if x is n][0]
+        cond = n.body[0].test
+        if any(isinstance(x, (ast.Yield, ast.YieldFrom, ast.Await, ast.NamedExpr)) for x in ast.walk(cond)):
+            continue
+
+        def gen(elt):
+            g = ast.GeneratorExp(elt=elt, generators=[ast.comprehension(target=_clone(n.target), iter=n.iter, ifs=[], is_async=0)])
+            return g
+
+        if isinstance(inner, ast.Break) and n.orelse:
+            test = ast.Call(func=ast.Name(id="all", ctx=ast.Load()), args=[gen(_negated(cond))], keywords=[])
+            new = ast.If(test=test, body=list(n.orelse), orelse=[])
+            ast.copy_location(new, n)
+            ast.fix_missing_locations(new)
+            blk[idx] = new
+            done += 1
+        elif isinstance(inner, ast.Return) and not n.orelse and isinstance(inner.value, ast.Constant) and isinstance(inner.value.value, bool) and idx + 1 < len(blk) and isinstance(blk[idx + 1], ast.Return) and isinstance(blk[idx + 1].value, ast.Constant) and isinstance(blk[idx + 1].value.value, bool) and blk[idx + 1].value.value != inner.value.value:
+            if inner.value.value:
+                val = ast.Call(func=ast.Name(id="any", ctx=ast.Load()), args=[gen(_clone(cond))], keywords=[])
+            else:
+                val = ast.Call(func=ast.Name(id="all", ctx=ast.Load()), args=[gen(_negated(cond))], keywords=[])
+            new = ast.Return(value=val)
+            ast.copy_location(new, n)
+            ast.fix_missing_locations(new)
+            blk[idx:idx + 2] = [new]
+            done += 1
+    if done:
+        stats.setdefault("#search_loops", []).append("%s:%d" % (fi.qual, done))
+    return done
+
+
+def _unfold_filter_calls(fi, ref_fingerprints, stats):
+    """A new `for T in filter(F, SEQ): BODY` is `for T in SEQ: if <F applied to T>: BODY` for F = C.__contains__, a lambda
+    of one argument, or None."""
+    from . import alpha
+
+    locs = alpha.local_names(fi.node)
+    done = 0
+    for n in list(walk_function(fi.node)):
+        if not (isinstance(n, ast.For) and not n.orelse and isinstance(n.target, ast.Name) and isinstance(n.iter, ast.Call) and isinstance(n.iter.func, ast.Name) and n.iter.func.id == "filter" and len(n.iter.args) == 2 and not n.iter.keywords):
+            continue
+        if _in_reference(fi, n, locs, ref_fingerprints):
+            continue
+        f, seq = n.iter.args
+        t = ast.Name(id=n.target.id, ctx=ast.Load())
+        if isinstance(f, ast.Attribute) and f.attr == "__contains__":
+            cond = ast.Compare(left=t, ops=[ast.In()], comparators=[f.value])
+        elif isinstance(f, ast.Lambda) and len(f.args.args) == 1 and not f.args.defaults:
+            holder = ast.Expression(body=_clone(f.body))
+            _Rename({f.args.args[0].arg: n.target.id}).visit(holder)
+            cond = holder.body
+        elif isinstance(f, ast.Constant) and f.value is None:
+            cond = t
+        else:
+            continue
+        guard = ast.If(test=cond, body=list(n.body), orelse=[])
+        ast.copy_location(guard, n)
+        n.iter = seq
+        n.body = [guard]
+        ast.fix_missing_locations(n)
+        stats.setdefault("#filter_calls", []).append(fi.qual)
+        done += 1
+    return done
+
+
+_PURE_ITER_CALLS = ("values", "items", "keys", "range", "len", "enumerate", "zip", "sorted", "list", "tuple", "reversed")
+
+
+def _pure_iter(e):
+    for x in ast.walk(e):
+        if isinstance(x, ast.Call):
+            f = x.func
+            nm = f.attr if isinstance(f, ast.Attribute) else (f.id if isinstance(f, ast.Name) else None)
+            if nm not in _PURE_ITER_CALLS:
+                return False
+        elif isinstance(x, (ast.Yield, ast.YieldFrom, ast.Await, ast.NamedExpr, ast.Lambda, ast.GeneratorExp, ast.ListComp, ast.SetComp, ast.DictComp)):
+            return False
+    return True
+
+
+def _fuse_split_loops(fi, ref_fingerprints, stats):
+    """Loop fission undone: two adjacent loops `for T in IT: A` / `for T in IT: B` over the same pure iterable, at least one
+    of them new, A without continue/break/return, every effect of A and B going through the loop variable (stores and
+    method calls rooted at T, plain locals): the per-element normal form is `for T in IT: A; B`."""
+    from . import alpha
+
+    locs = alpha.local_names(fi.node)
+    done = 0
+    changed = True
+    while changed:
+        changed = False
+        for n in list(walk_function(fi.node)):
+            if not (isinstance(n, ast.For) and not n.orelse):
+                continue
+            blk, par = _block_of(n)
+            if blk is None:
+                continue
+            idx = [k for k, x in enumerate(blk) if x is n][0]
+            if idx + 1 >= len(blk):
+                continue
+            m = blk[idx + 1]
+            if not (isinstance(m, ast.For) and not m.orelse and ast.dump(m.target) == ast.dump(n.target) and ast.dump(m.iter) == ast.dump(n.iter) and _pure_iter(n.iter)):
+                continue
+            if _in_reference(fi, n, locs, ref_fingerprints) and _in_reference(fi, m, locs, ref_fingerprints):
+                continue
+            if _contains(n.body, (ast.Continue, ast.Break, ast.Return, ast.Yield, ast.YieldFrom)) or _contains(m.body, (ast.Break, ast.Return)):
+                continue
+            tnames = {x.id for x in ast.walk(n.target) if isinstance(x, ast.Name)}
+            itnames = {x.id for x in ast.walk(n.iter) if isinstance(x, ast.Name)}
+
+            def rooted_ok(stmts):
+                for st in stmts:
+                    for x in ast.walk(st):
+                        if isinstance(x, (ast.Attribute, ast.Subscript)) and isinstance(x.ctx, (ast.Store, ast.Del)):
+                            r = x
+                            while isinstance(r, (ast.Attribute, ast.Subscript)):
+                                r = r.value
+                            if not (isinstance(r, ast.Name) and r.id in tnames):
+                                return False
+                        if isinstance(x, ast.Name) and isinstance(x.ctx, ast.Store) and x.id in itnames:
+                            return False
+                return True
+
+            if not (rooted_ok(n.body) and rooted_ok(m.body)):
+                continue
+            # plain locals written by A must not be read by B before B writes them (keep it simple: no shared plain names)
+            wa = {x.id for st in n.body for x in ast.walk(st) if isinstance(x, ast.Name) and isinstance(x.ctx, ast.Store)} - tnames
+            rb = {x.id for st in m.body for x in ast.walk(st) if isinstance(x, ast.Name) and isinstance(x.ctx, ast.Load)}
+            wb = {x.id for st in m.body for x in ast.walk(st) if isinstance(x, ast.Name) and isinstance(x.ctx, ast.Store)} - tnames
+            ra = {x.id for st in n.body for x in ast.walk(st) if isinstance(x, ast.Name) and isinstance(x.ctx, ast.Load)}
+            if (wa & rb) or (wb & ra):
+                continue
+            n.body = list(n.body) + list(m.body)
+            del blk[idx + 1]
+            ast.fix_missing_locations(n)
+            set_parents(fi.node)
+            stats.setdefault("#fused_loops", []).append(fi.qual)
+            done += 1
+            changed = True
+            break
+    return done
+
+
+_NEVER_NONE_CALLS = ("sorted", "list", "tuple", "set", "frozenset", "dict", "str", "int", "float", "len", "sum", "min", "max", "abs", "bool", "Genotype", "defaultdict", "Counter")
+
+
+def _never_none(e):
+    if isinstance(e, ast.Constant):
+        return e.value is not None
+    if isinstance(e, (ast.List, ast.Tuple, ast.Set, ast.Dict, ast.ListComp, ast.SetComp, ast.DictComp, ast.GeneratorExp, ast.JoinedStr, ast.BinOp, ast.Compare)):
+        return True
+    if isinstance(e, ast.Call) and isinstance(e.func, ast.Name) and e.func.id in _NEVER_NONE_CALLS:
+        return True
+    return False
+
+
+def _thread_none_sentinels(fi, ref_locals, stats):
+    """Jump threading over a new Optional temporary:
+        if C: T = None            if C: B2
+        else: T = E          ->   else: T = E; B
+        if T is not None: B
+        else: B2
+    (either orientation of both ifs; E an expression that cannot be None)."""
+    done = 0
+    for n in list(walk_function(fi.node)):
+        if not (isinstance(n, ast.If) and len(n.body) == 1 and len(n.orelse) == 1 and all(isinstance(x, ast.Assign) and len(x.targets) == 1 and isinstance(x.targets[0], ast.Name) for x in (n.body[0], n.orelse[0]))):
+            continue
+        a, b = n.body[0], n.orelse[0]
+        if a.targets[0].id != b.targets[0].id or a.targets[0].id in ref_locals:
+            continue
+        t = a.targets[0].id
+        a_none = isinstance(a.value, ast.Constant) and a.value.value is None
+        b_none = isinstance(b.value, ast.Constant) and b.value.value is None
+        if a_none == b_none:
+            continue
+        val = b.value if a_none else a.value
+        if not _never_none(val):
+            continue
+        blk, par = _block_of(n)
+        if blk is None:
+            continue
+        i = [k for k, x in enumerate(blk) if x is n][0]
+        if i + 1 >= len(blk) or not isinstance(blk[i + 1], ast.If):
+            continue
+        nx = blk[i + 1]
+        tt = nx.test
+        if not (isinstance(tt, ast.Compare) and len(tt.ops) == 1 and isinstance(tt.left, ast.Name) and tt.left.id == t and isinstance(tt.comparators[0], ast.Constant) and tt.comparators[0].value is None and isinstance(tt.ops[0], (ast.Is, ast.IsNot))):
+            continue
+        some_body, none_body = (nx.body, nx.orelse) if isinstance(tt.ops[0], ast.IsNot) else (nx.orelse, nx.body)
+        # T must not be needed after the pair except inside the not-None branch
+        later_use = False
+        for later in blk[i + 2:]:
+            if any(isinstance(x, ast.Name) and x.id == t for x in ast.walk(later)):
+                later_use = True
+        if later_use or any(isinstance(x, ast.Name) and x.id == t for st_ in none_body for x in ast.walk(st_)):
+            continue
+        keep = b if a_none else a
+        new_some = [keep] + list(some_body)
+        new_none = list(none_body)
+        if a_none:
+            n.body, n.orelse = (new_none or [ast.copy_location(ast.Pass(), n)]), new_some
+        else:
+            n.body, n.orelse = new_some, new_none
+        if not n.body:
+            n.body = [ast.copy_location(ast.Pass(), n)]
+        del blk[i + 1]
+        ast.fix_missing_locations(n)
+        stats.setdefault("#sentinels", []).append("%s:%s" % (fi.qual, t))
+        done += 1
+    return done
+
+
 def _split_new_divmod(fi, ref_fingerprints, stats):
     """A new statement `q, r = divmod(x, k)` is `r = x % k; q = x // k` (in an order that reads x before re-binding it)."""
     from . import alpha
@@ -1180,7 +1841,7 @@ def _split_new_divmod(fi, ref_fingerprints, stats):
         v = n.value
         if not (isinstance(v, ast.Call) and isinstance(v.func, ast.Name) and v.func.id == "divmod" and len(v.args) == 2 and not v.keywords and _value_like(v.args[0]) and _value_like(v.args[1])):
             continue
-        if alpha._fingerprint(n, locs)[0] in ref_fingerprints:
+        if _in_reference(fi, n, locs, ref_fingerprints):
             continue
         blk, _o = _block_of(n)
         if blk is None:
@@ -1307,8 +1968,9 @@ def normalise(prog, ref):
         return base(g.qual) not in ref_funcs and not g.qual.startswith("#")
 
     any_new = any(is_new(f) for f in prog.functions.values() if f.module.kind in ("py", "pyx"))
-    # 1. inlining of new helpers (a few rounds: helpers may call helpers)
-    if any_new:
+    def inline_round():
+        """Inline new helpers (a few rounds: helpers may call helpers); returns the number of call sites replaced."""
+        total = 0
         for _ in range(MAX_ROUNDS):
             n = 0
             for fi in list(prog.functions.values()):
@@ -1322,6 +1984,7 @@ def normalise(prog, ref):
                     set_parents(fi.node)
                     fi.node.parent = getattr(fi.node, "parent", None)
                 n += k
+            total += n
             if not n:
                 break
         # helpers that are no longer called anywhere are absorbed
@@ -1340,6 +2003,17 @@ def normalise(prog, ref):
                         still_called.add(g.qual)
         absorbed = []
         for q in sorted(inlined):
+            if q not in still_called and q in prog.functions and prog.functions[q].cls is None and "." in q:
+                # a local def that is no longer referenced: drop the def statement from its enclosing function
+                g0 = prog.functions[q]
+                outer = prog.functions.get(q.rsplit(".", 1)[0])
+                if outer is not None and outer.module is g0.module and not any(isinstance(x, ast.Name) and x.id == g0.node.name and isinstance(x.ctx, ast.Load) for x in ast.walk(outer.node)):
+                    for holder in ast.walk(outer.node):
+                        for f_ in ("body", "orelse", "finalbody"):
+                            b_ = getattr(holder, f_, None)
+                            if isinstance(b_, list) and any(x is g0.node for x in b_):
+                                b_[:] = [x for x in b_ if x is not g0.node] or [ast.Pass()]
+                    set_parents(outer.node)
             if q not in still_called and q in prog.functions:
                 g = prog.functions.pop(q)
                 g.module.functions.pop(q, None)
@@ -1349,7 +2023,12 @@ def normalise(prog, ref):
                 if g in lst:
                     lst.remove(g)
                 absorbed.append(q)
-        stats["#absorbed"] = absorbed
+        stats["#absorbed"] = stats.get("#absorbed", []) + absorbed
+        return total
+
+    # 1. inlining of new helpers
+    if any_new:
+        inline_round()
     # 1b. new module-level scalar constants (`MAX_COVERAGE = 23`) are folded back into the functions of their module
     for m in prog.modules.values():
         if m.kind not in ("py", "pyx"):
@@ -1393,38 +2072,134 @@ def normalise(prog, ref):
                     js.values = merged
                 set_parents(fi.node)
                 stats.setdefault("#constants", []).append("%s:%s" % (fi.qual, ",".join(sorted(use))))
+    # 1c. new class-level literal constants (`_MISSING = {"HP": ".", ...}`) are folded back into the methods that read them
+    #     through self / cls / the class name; `<dict literal>.items()` becomes the tuple of its pairs
+    for m in prog.modules.values():
+        if m.kind not in ("py", "pyx"):
+            continue
+        known = ref.get("#classattrs:" + m.name)
+        if known is None:
+            continue
+        known = set(known)
+        for c_ in [x for x in ast.walk(m.tree) if isinstance(x, ast.ClassDef)]:
+            consts = {}
+            for s_ in c_.body:
+                tgt = val = None
+                if isinstance(s_, ast.Assign) and len(s_.targets) == 1 and isinstance(s_.targets[0], ast.Name):
+                    tgt, val = s_.targets[0].id, s_.value
+                elif isinstance(s_, ast.AnnAssign) and isinstance(s_.target, ast.Name) and s_.value is not None:
+                    tgt, val = s_.target.id, s_.value
+                if tgt is None or "%s.%s" % (c_.name, tgt) in known or not _is_literal(val):
+                    continue
+                if sum(1 for n in ast.walk(m.tree) if isinstance(n, ast.Attribute) and n.attr == tgt and isinstance(n.ctx, (ast.Store, ast.Del))) > 0:
+                    continue
+                consts[tgt] = val
+            if not consts:
+                continue
+            for fi in prog.functions.values():
+                if fi.module is not m:
+                    continue
+                tr = _ClassConst(consts, c_.name, fi.cls is not None and fi.cls.node is c_)
+                tr.visit(fi.node)
+                if tr.n:
+                    set_parents(fi.node)
+                    stats.setdefault("#constants", []).append("%s:%s" % (fi.qual, ",".join(sorted(tr.used))))
+    # 1d. new NamedTuple classes: `Cls(a, b, c)` builds the tuple (a, b, c) (consumers that unpack or index it are unchanged)
+    for m in prog.modules.values():
+        if m.kind not in ("py", "pyx"):
+            continue
+        known = ref.get("#classes:" + m.name)
+        if known is None:
+            continue
+        nts = {}
+        for c_ in [x for x in m.tree.body if isinstance(x, ast.ClassDef)]:
+            if c_.name in known or not any((isinstance(b_, ast.Name) and b_.id == "NamedTuple") or (isinstance(b_, ast.Attribute) and b_.attr == "NamedTuple") for b_ in c_.bases):
+                continue
+            fields = [(s_.target.id, s_.value) for s_ in c_.body if isinstance(s_, ast.AnnAssign) and isinstance(s_.target, ast.Name)]
+            if fields and not any(isinstance(s_, (ast.FunctionDef, ast.AsyncFunctionDef)) for s_ in c_.body):
+                nts[c_.name] = fields
+        if not nts:
+            continue
+        for fi in prog.functions.values():
+            if fi.module is not m:
+                continue
+            tr = _NamedTupleCtor(nts)
+            tr.visit(fi.node)
+            if tr.n:
+                set_parents(fi.node)
+                stats.setdefault("#namedtuples", []).append("%s:%d" % (fi.qual, tr.n))
     # 2./3. per function: new constant loops, new temporaries
     mconsts = {}
-    for fi in list(prog.functions.values()):
-        if fi.module.kind not in ("py", "pyx"):
-            continue
-        d = ref.get(base(fi.qual))
-        if not d:
-            continue
-        ref_fps = {x[0] for x in d}
-        ref_locals = set()
-        for x in d:
-            ref_locals |= set(x[1])
-        mc = mconsts.get(fi.module.name)
-        if mc is None:
-            mc = mconsts[fi.module.name] = _module_consts(fi.module)
-        try:
-            if _unroll_new_loops(fi, ref_fps, mc, stats):
-                set_parents(fi.node)
-            if _split_new_divmod(fi, ref_fps, stats):
-                set_parents(fi.node)
-            for _round in range(3):
-                k = _propagate_temps(fi, ref_locals, stats)
-                k += _coalesce_copies(fi, ref_locals, stats)
-                k += _merge_accumulators(fi, ref_locals, stats)
-                if _unfold_filtered_loops(fi, ref_fps, stats):
+
+    def local_round():
+        for fi in list(prog.functions.values()):
+            if fi.module.kind not in ("py", "pyx"):
+                continue
+            d = ref.get(base(fi.qual))
+            if not d:
+                continue
+            ref_fps = {x[0] for x in d}
+            from . import alpha as _alpha_h
+
+            if ref.get("#hash:" + base(fi.qual)) == _alpha_h.exact_hash(fi.node):
+                continue  # untouched function: every normalisation below is the identity on it
+            fi._ref_fps = ref_fps
+            dd = ref.get("#deep:" + base(fi.qual))
+            fi._ref_deep = set(dd) if dd is not None else None
+            ref_locals = set()
+            for x in d:
+                ref_locals |= set(x[1])
+            mc = mconsts.get(fi.module.name)
+            if mc is None:
+                mc = mconsts[fi.module.name] = _module_consts(fi.module)
+            try:
+                if _unroll_new_loops(fi, ref_fps, mc, stats):
                     set_parents(fi.node)
-                    k += 1
-                if not k:
-                    break
-        except RecursionError:
-            pass
-        set_parents(fi.node)
+                if _split_new_divmod(fi, ref_fps, stats):
+                    set_parents(fi.node)
+                for _round in range(3):
+                    k = _propagate_temps(fi, ref_locals, stats)
+                    k += _coalesce_copies(fi, ref_locals, stats)
+                    k += _merge_accumulators(fi, ref_locals, stats)
+                    if _unfold_filtered_loops(fi, ref_fps, stats):
+                        set_parents(fi.node)
+                        k += 1
+                    if _split_new_ifexp_assigns(fi, ref_fps, stats):
+                        set_parents(fi.node)
+                        k += 1
+                    if _unfold_mapped_loops(fi, ref_fps, stats):
+                        set_parents(fi.node)
+                        k += 1
+                    if _thread_none_sentinels(fi, ref_locals, stats):
+                        set_parents(fi.node)
+                        k += 1
+                    if _unzip_new_pairs(fi, ref_locals, stats):
+                        set_parents(fi.node)
+                        k += 1
+                    if _split_loop_target_ranges(fi, ref_locals, stats):
+                        set_parents(fi.node)
+                        k += 1
+                    if _zip_to_indexed(fi, ref_fps, stats):
+                        set_parents(fi.node)
+                        k += 1
+                    if _fold_search_loops(fi, ref_fps, stats):
+                        set_parents(fi.node)
+                        k += 1
+                    if _unfold_filter_calls(fi, ref_fps, stats):
+                        set_parents(fi.node)
+                        k += 1
+                    if _fuse_split_loops(fi, ref_fps, stats):
+                        set_parents(fi.node)
+                        k += 1
+                    if not k:
+                        break
+            except RecursionError:
+                pass
+            set_parents(fi.node)
+    local_round()
+    # a helper call that only became visible after a temporary was propagated (`it = helper(..); for x in it:`)
+    if any_new and inline_round():
+        local_round()
     # parent links of the function nodes themselves
     for m in prog.modules.values():
         if m.kind in ("py", "pyx"):
